@@ -251,12 +251,16 @@ def rule_work(facts, col, rid_c19="C19.R2", rid_c08="C08.R1", rid_c12="C12.R2", 
                 "lock-step from index 0" % forb)
         elif len(takes) != 1 or not _is_n(body.operand_expr(takes[0][1]["args"][1])):
             bad(rid_c08, "i:take_n", "the sample iterator is not limited by take(n) with the clamped step count")
+            bad(rid_c12, "steps", "the per-sample iterator is not bounded by the clamped step count: in an output-limited call one more sample "
+                "is evaluated than is consumed and produced - the tags computed for it carry a position >= n and are dropped by produce(), "
+                "while the block's state has already moved past the sample, so they do not come out when it is processed again")
             bad(rid_c19, "s:steps", "process_sync*() is not called exactly n = min(shortest input, smallest output space) times per call: the "
                 "sample iterator is bounded by something other than the clamped step count (e.g. the input-only clamp), so an output-limited "
                 "call runs one step more than it consumes and produces, and that sample is processed again next time")
         else:
             ok(rid_c08, "i:lockstep", "inputs walked in lock-step from 0 (take(n), zip, enumerate, map only)")
             ok(rid_c19, "s:steps", "the per-sample iterator is bounded by the clamped step count n")
+            ok(rid_c12, "steps", "no sample is evaluated without being consumed and produced in the same call (tags computed for it are committed)")
         iters = {}
         slices = {}
         for bb, t in body.calls():
